@@ -77,7 +77,7 @@ json.dump(m,open('/verif/MANIFEST.json','w'),indent=1)
 FIX_PROPS={
  '659fa0e':'C17','d9b4edd':'C06','8e362d8':'C14','1a3ec83':'C05','d074582':'C05','4dbe7f4':'C03','ff68d64':'C16','739e5da':'C20','fbd49ff':'C20',
  'b6aac37':'C16','7524623':'C08','743ce43':'C15','d247afc':'C20','2f0bb4d':'C15','53bf577':'C20','c70c12b':'C07','3c0b511':'C10','9016315':'C07',
- '4ba9f80':'C11','2ba22ea':'C20','e54c65e':'C02'}
+ '4ba9f80':'C11','2ba22ea':'C20','e54c65e':'C02','eced17a':'C11'}
 log=subprocess.run(['git','-C','/repo','log','--format=%h %s','1ff383a..HEAD'],capture_output=True,text=True).stdout.strip().splitlines()
 k=json.load(open('/verif/known_findings.json'))
 k['fixed']=[]
